@@ -18,7 +18,7 @@ from ..core import rule, AnalysisError
 from ..engine import rx, cfg as cfgmod, flow
 from ..engine import pattern as P
 from ..engine.facts import dotted, const, src, walk_func, str_value, enclosing_stmt, ancestors
-from .common import calls, stmt_nodes, contains
+from .common import calls, stmt_nodes, contains, pn, access_paths
 
 CURSOR = ("match_position", "lineno", "matched_lineno", "matched_charpos")
 
@@ -345,11 +345,14 @@ def verbatim_flow(ctx):
     ok = ok and ("repr(node.content)" in arg or "{node.content!r}" in arg or "%r" in arg and "node.content" in arg) and "__M_writer(" in arg
     ctx.check(ok, "visitText", db.where(vt), "visitText does not emit exactly one __M_writer(repr(node.content)) (repr is what protects the text from the printer's re-indentation)", "one write of repr(content)")
     ve = db.func("codegen._GenerateRenderMethod.visitExpression")
-    for c in calls(ve, "self.printer.writeline"):
+    nd = pn(ve, 1)
+    fvars = {s_.targets[0].id for s_ in walk_func(ve) if isinstance(s_, ast.Assign) and isinstance(s_.targets[0], ast.Name) and isinstance(s_.value, ast.Call) and dotted(s_.value.func) == "self.create_filter_callable"}
+    for i_, c in enumerate(calls(ve, "self.printer.writeline")):
         a = src(c.args[0])
-        ctx.check("node.text" in a or a.endswith("% s"), "visitExpression:%d" % (c.lineno - ve.lineno), db.where(c), "expression text is not placed unchanged: %s" % a, "node.text / filtered node.text")
+        ok = P.has(c.args[0], "'__M_writer(%%s)' %% %s.text" % nd) or any(P.has(c.args[0], "'__M_writer(%%s)' %% %s" % v_) for v_ in fvars)
+        ctx.check(ok, "visitExpression:%s" % ("filtered" if "text" not in a else "plain"), db.where(c), "expression text is not placed unchanged: %s" % a, "node.text / filtered node.text")
     cf = [c for c in calls(ve, "self.create_filter_callable")]
-    ctx.check(bool(cf) and "node.text" in src(cf[0].args[1]), "visitExpression.target", db.where(ve), "the filter pipeline is not applied to node.text", "filters wrap node.text")
+    ctx.check(bool(cf) and (P.has(cf[0].args[1], "'%%s' %% %s.text" % nd) or src(cf[0].args[1]) == nd + ".text"), "visitExpression.target", db.where(ve), "the filter pipeline is not applied to node.text", "filters wrap node.text")
     # the CRLF normalisations are the only edits of expression/attribute text
     me = db.func("lexer.Lexer.match_expression")
     reps = [c for c in walk_func(me) if isinstance(c, ast.Call) and isinstance(c.func, ast.Attribute) and c.func.attr in ("replace", "strip", "lstrip", "rstrip", "lower", "upper")]
